@@ -53,6 +53,19 @@ func init() {
 					}
 				}
 			}
+			// block length 3 is the smallest with weak-checksum collisions; m=6 gives a duplicated block
+			for _, nm := range [][2]int{{3, 3}, {3, 4}, {3, 6}, {4, 6}, {4, 4}} {
+				out = append(out, inst("internal/sender", "HDeltaSender", "n", nm[0], "m", nm[1], "b", 3, "s2", 16))
+			}
+			if tier == "thorough" {
+				for _, nm := range [][2]int{{6, 6}, {5, 7}, {6, 9}} {
+					out = append(out, inst("internal/sender", "HDeltaSender", "n", nm[0], "m", nm[1], "b", 3, "s2", 16))
+				}
+				// short strong sums: collisions at the truncated length are assumed away (hashprefix)
+				for _, nm := range [][2]int{{3, 3}, {4, 4}} {
+					out = append(out, inst("internal/sender", "HDeltaSender", "n", nm[0], "m", nm[1], "b", 2, "s2", 2, "hashprefix", 2))
+				}
+			}
 			ks := []int{1, 2}
 			if tier == "thorough" {
 				ks = []int{1, 2, 3, 4}
@@ -122,7 +135,6 @@ func init() {
 		Instances: func(tier string) []Instance {
 			small := func(i Instance) Instance { i.MaxAlloc = 8; return i }
 			out := []Instance{
-				small(inst("internal/sender", "HHostileFilter", "L", 9, "nameLen", 1)),
 				small(inst("internal/sender", "HHostileRequests", "L", 8, "n", 2, "dry", 0)),
 				small(inst("internal/sender", "HHostileRequests", "L", 28, "n", 2, "dry", 0)),
 				small(inst("internal/sender", "HHostileRequests", "L", 28, "n", 0, "dry", 0)),
@@ -133,6 +145,7 @@ func init() {
 				small(inst("internal/receiver", "HHostileRecvFiles", "L", 8)),
 				small(inst("internal/receiver", "HHostileRecvFiles", "L", 28)),
 				small(inst("internal/rsyncwire", "HHostileMux", "L", 10)),
+				small(inst("internal/sender", "HHostileFilter", "L", 9, "nameLen", 1)),
 			}
 			if tier == "thorough" {
 				out = append(out,
@@ -261,13 +274,14 @@ func init() {
 		ID: "C12",
 		Instances: func(tier string) []Instance {
 			out := []Instance{
-				inst("internal/receiver", "HUpdateRule", "m", 0),
-				inst("internal/receiver", "HUpdateRule", "m", 2),
+				inst("internal/receiver", "HUpdateRule", "m", 1, "secbits", 4),
+				inst("internal/receiver", "HUpdateRule", "m", 0, "secbits", 0),
+				inst("internal/receiver", "HUpdateRule", "m", 2, "secbits", 0),
 				inst("internal/receiver", "HIdempotent", "n", 0),
 				inst("internal/receiver", "HIdempotent", "n", 2),
 			}
 			if tier == "thorough" {
-				out = append(out, inst("internal/receiver", "HUpdateRule", "m", 4), inst("internal/receiver", "HIdempotent", "n", 5))
+				out = append(out, inst("internal/receiver", "HUpdateRule", "m", 4, "secbits", 0), inst("internal/receiver", "HUpdateRule", "m", 1, "secbits", 8), inst("internal/receiver", "HIdempotent", "n", 5))
 			}
 			return out
 		},
